@@ -4,7 +4,7 @@
    [build ws] is the trie after inserting the words ws, in that order, into an empty trie. *)
 From Coq Require Import List NArith Sorted.
 From GrolModel Require Import Trie.
-From GrolProofs Require Import Trie_proofs Trie_order.
+From GrolProofs Require Import Trie_proofs Trie_order Trie_spec.
 Import ListNotations.
 
 (* membership holds exactly for the inserted non-empty words, for every insertion sequence *)
@@ -57,8 +57,32 @@ Example C20_ex_prefix_word :
   /\ complete (build [[97;98;99];[97;98;100]]%N) [97]%N = Some ([97;98]%N, 2).
 Proof. vm_compute. repeat split. Qed.
 
+
+(* refinement to an executable specification with no trie in it: [spec_prefix_all ws p] filters the inserted words
+   (non-empty, starting with p), inserts them into a strictly sorted duplicate-free list and folds the pairwise
+   common-prefix length over it.  The words of EVERY query on EVERY trie built by insertions are exactly that list,
+   and whenever the answer is not empty the whole answer (length and words) is the specification's. *)
+Theorem C20_refines_sorted_set_spec : forall (ws : list word) (p : word),
+  snd (prefix_all (build ws) p) = snd (spec_prefix_all ws p)
+  /\ (snd (prefix_all (build ws) p) <> [] -> prefix_all (build ws) p = spec_prefix_all ws p).
+Proof. exact prefix_all_refines_spec. Qed.
+
+(* what the auto-complete callback offers is the specification's answer: nothing when no inserted word starts with the
+   typed text, otherwise the typed line extended to the longest common prefix of the sorted candidates *)
+Theorem C20_completion_refines_spec : forall (ws : list word) (typed : word),
+  complete (build ws) typed = spec_complete ws typed.
+Proof. exact complete_refines_spec. Qed.
+
+Example C20_ex_spec :
+  spec_prefix_all [[97;98;99];[];[98];[97;98;100];[97;98;99]]%N [97]%N = (2, [[97;98;99];[97;98;100]]%N)
+  /\ spec_complete [[97;98;99];[97;98;100]]%N [97]%N = Some ([97;98]%N, 2)
+  /\ spec_complete [[97;98;99]]%N [98]%N = None.
+Proof. vm_compute. repeat split. Qed.
+
 Print Assumptions C20_membership.
 Print Assumptions C20_prefix_query.
 Print Assumptions C20_completion.
 Print Assumptions C20_order_independent.
 Print Assumptions C20_membership_order_independent.
+Print Assumptions C20_refines_sorted_set_spec.
+Print Assumptions C20_completion_refines_spec.
